@@ -409,6 +409,18 @@ func (rm *ResponseManager) finishTask(task *peertask.Task, p peer.ID, err error)
 		return
 	}
 
+	// the executor only looks at its error signal between blocks: a network failure signalled after its
+	// last look has closed the response stream, so nothing the executor queued since then (the terminal
+	// status included) will ever be sent, and this is the last chance to retire the response
+	select {
+	case sigErr := <-response.signals.ErrSignal:
+		if sigErr == queryexecutor.ErrNetworkError {
+			rm.terminateRequest(requestID)
+			return
+		}
+	default:
+	}
+
 	response.state = graphsync.CompletingSend
 }
 
